@@ -95,6 +95,20 @@ VwAOpt = typing.TypeAliasType("VwAOpt", typing.Optional[int])
 VwAStr = typing.TypeAliasType("VwAStr", "VwDC")
 def vw_func(a: int, b: str = "x") -> int:
     return a
+class VwRecord:
+    """dict-backed record: unknown attributes are looked up in the data (KeyError when absent)"""
+    def __init__(self, **data):
+        self.__dict__["_data"] = data
+    def __getattr__(self, key):
+        return self._data[key]
+class VwNamespace:
+    """auto-vivifying namespace / lazy proxy: answers every attribute name"""
+    def __getattr__(self, key):
+        if key.startswith("__") and key.endswith("__") and key not in ("__get__", "__set__", "__delete__", "__set_name__"):
+            raise AttributeError(key)
+        child = VwNamespace()
+        self.__dict__[key] = child
+        return child
 '''
 WORLD = {"modules": [{"name": "vw0", "future": False, "decls": [{"d": "raw", "n": "VwE", "src": "import abc\n" + WORLD_SRC}]}]}
 
@@ -142,6 +156,7 @@ INSTANCES = [
     "decimal.Decimal('1')", "uuid.UUID(int=1)", "pathlib.PurePosixPath('a')", "VwDC()", "VwFDC()", "VwNT()", "VwPlain()", "VwE.A",
     "VwUnhashable()", "VwPlain.prop", "VwPlain.__dict__['cprop']", "VwPlain.meth", "VwPlain().meth", "vw_func", "len", "VwPlain", "int",
     "VwPlain.__dict__['from_dict']", "collections.deque()", "range(3)", "object()", "lambda: 0",
+    "VwRecord(name='x')", "VwNamespace()", "property", "staticmethod(len)",
 ]
 
 # spelling groups: entries that denote one type (answers must be independent of spelling)
@@ -216,6 +231,7 @@ SPECIAL_PREDS = ["isoptionaltype", "isuniontype", "isliteral", "isfinal", "iscla
                  "resolve_supertype", "istypealiastype", "iscallable"]
 INSTANCE_PREDS = ["isbuiltininstance", "isstdlibinstance", "ishashable", "isproperty", "isdescriptor", "issimpleattribute"]
 
+_MISSING = object()
 EXACT_MODEL = {
     "isuniontype": lambda o: typing.get_origin(_peel_alias(o)) in (typing.Union, types.UnionType),
     "isliteral": lambda o: typing.get_origin(o) is typing.Literal,
@@ -227,6 +243,9 @@ EXACT_MODEL = {
     "isnamedtuple": lambda o: isinstance(o, type) and issubclass(o, tuple) and hasattr(o, "_fields"),
     "isfrozendataclass": lambda o: bool(dataclasses.is_dataclass(o) and o.__dataclass_params__.frozen),
     "ishashable": lambda o: _hashable(o),
+    # the descriptor protocol is looked up statically (on the object's own namespace and its type's MRO),
+    # never through a dynamic __getattr__
+    "isdescriptor": lambda o: any(inspect.getattr_static(o, m, _MISSING) is not _MISSING for m in ("__get__", "__set__", "__delete__")),
     "isproperty": lambda o: isinstance(o, (property, __import__("functools").cached_property)),
     "isoptionaltype": lambda o: _is_optional(o),
     "isclassvartype": lambda o: (typing.get_origin(o) or o) is typing.ClassVar,
